@@ -112,6 +112,13 @@ func (h *hist) newPlan(k int) *plan {
 	case kArr:
 		pl.pids = []int64{h.newID(), h.newID(), h.newID()}
 		pl.x = h.rng.Int63()
+	case kStrOnly:
+		pl.aux = h.newID()
+		pl.strN = 24 + h.rng.Intn(40)
+		pl.x = h.rng.Int63()
+	case kBig:
+		pl.pids = []int64{h.newID(), h.newID()}
+		pl.x = h.rng.Int63()
 	case kPlain:
 		pl.x, pl.y = h.rng.Int63(), h.rng.Int63()
 	case kTag:
